@@ -186,51 +186,6 @@ func isNumeric(cmd string) bool {
 	return true
 }
 
-// wellFormed: C15 - one IRC line: <=510 bytes, no CR/LF/NUL, optional well-formed prefix, then a command.
-func wellFormed(data string) string {
-	if len(data) > 510 {
-		return fmt.Sprintf("too-long(%d bytes)", len(data))
-	}
-	for k := 0; k < len(data); k++ {
-		switch data[k] {
-		case '\n':
-			return "contains-LF"
-		case '\r':
-			return "contains-CR"
-		case 0:
-			return "contains-NUL"
-		}
-	}
-	rest := data
-	if strings.HasPrefix(rest, ":") {
-		sp := strings.IndexByte(rest, ' ')
-		if sp < 0 {
-			return "prefix-without-command"
-		}
-		if sp == 1 {
-			return "empty-prefix"
-		}
-		rest = rest[sp+1:]
-	}
-	rest = strings.TrimLeft(rest, " ")
-	if rest == "" {
-		return "no-command"
-	}
-	cmd := rest
-	if sp := strings.IndexByte(rest, ' '); sp >= 0 {
-		cmd = rest[:sp]
-	}
-	if cmd == "" || strings.HasPrefix(cmd, ":") {
-		return "no-command"
-	}
-	for _, c := range cmd {
-		if !((c >= 'A' && c <= 'Z') || (c >= 'a' && c <= 'z') || (c >= '0' && c <= '9')) {
-			return "bad-command"
-		}
-	}
-	return ""
-}
-
 // globMatch: the ban mask semantics as documented for users: '*' matches any
 // run of characters, everything else literally; the mask is searched for
 // anywhere in the subject (masks are not anchored).
